@@ -116,6 +116,15 @@ class Order:
                     ax.append(as_lin(add(sub(a, a[1]), a[2])))     # satsub(a,b) >= a - b
             elif tg == "align_of":
                 ax.append(as_lin(add(a, const(-1))))
+            elif tg == "call" and isinstance(a[1], str) and a[1].endswith("::saturating_add") and "<impl u" in a[1] and len(a[2]) == 2:
+                p_, q_ = a[2]
+                try:
+                    ax.append(as_lin(sub(a, p_)))                  # min(p + q, MAX) >= p  (p <= MAX)
+                    ax.append(as_lin(sub(a, q_)))
+                    ax.append(as_lin(sub(add(p_, q_), a)))         # <= p + q
+                    ax.append(as_lin(a))
+                except Exception:
+                    pass
             elif tg == "max":
                 ax.append(as_lin(sub(a, a[1])))
                 ax.append(as_lin(sub(a, a[2])))
